@@ -177,3 +177,67 @@ func (p *Program) lookupFunc(pkgName, key string) (*types.Func, *packages.Packag
 	}
 	return nil, nil
 }
+
+// funcLitOrdinal: k-th function literal (source order) inside its FuncDecl.
+func (p *Program) funcLitOrdinal(decl *ast.FuncDecl, lit *ast.FuncLit) int {
+	k, found := 0, 0
+	ast.Inspect(decl, func(n ast.Node) bool {
+		if l, ok := n.(*ast.FuncLit); ok {
+			k++
+			if l == lit {
+				found = k
+			}
+		}
+		return true
+	})
+	return found
+}
+
+func (p *Program) funcLitByOrdinal(decl *ast.FuncDecl, k int) *ast.FuncLit {
+	i := 0
+	var out *ast.FuncLit
+	ast.Inspect(decl, func(n ast.Node) bool {
+		if l, ok := n.(*ast.FuncLit); ok {
+			i++
+			if i == k {
+				out = l
+			}
+		}
+		return true
+	})
+	return out
+}
+
+// closureContract finds the contract "Decl$k" of a function literal and its parameter names.
+func (p *Program) closureContract(lit *ast.FuncLit) (*Contract, []string) {
+	pk := p.pkgOfNode(lit)
+	if pk == nil {
+		return nil, nil
+	}
+	decl := p.enclosingDecl(pk, lit.Pos())
+	if decl == nil {
+		return nil, nil
+	}
+	obj, _ := pk.TypesInfo.Defs[decl.Name].(*types.Func)
+	if obj == nil {
+		return nil, nil
+	}
+	key := fmt.Sprintf("%s$%d", funcKey(obj), p.funcLitOrdinal(decl, lit))
+	c := p.specs.Contracts[contractKey(pk.PkgPath, key)]
+	if c == nil {
+		return nil, nil
+	}
+	var names []string
+	i := 0
+	for _, fld := range lit.Type.Params.List {
+		for _, nm := range fld.Names {
+			n := nm.Name
+			if i < len(c.Params) {
+				n = c.Params[i]
+			}
+			names = append(names, n)
+			i++
+		}
+	}
+	return c, names
+}
